@@ -5,6 +5,8 @@ root = '/verif/seeded'
 head = open(f'{root}/README.md').read().split('\n| seed |')[0].rstrip('\n')
 WAVES = {1: "C01 C04 C06 C07 C09 C13 C15 C16 C18 C20 C28 C30", 2: "C02 C03 C10 C11 C12 C14 C17 C21 C26 C29 C31 C33", 3: "C05 C08 C19 C22 C23 C24 C25 C27 C32 C34 C35 C36"}
 wave = {i: w for w, ids in WAVES.items() for i in ids.split()}
+for i in "C03 C05 C14 C17 C19 C24 C29 C31 C32 C33 C35 C36".split():
+    wave[i + "b"] = 4
 def cell(s, n):
     s = re.sub(r'\s+', ' ', s).replace('|', '\\|')
     return s if len(s) <= n else s[:n - 1] + '…'
